@@ -362,17 +362,41 @@ def dep_patterns(n):
     return [chain, star, inputs, mixed]
 
 
-def specs(tier):
-    """Complete within the stated bounds (see rule in the check's run())."""
+CORE_FORMS = ["alias", "alias-neg", "alias-sum0", "const", "const-p", "factor"]
+PAIR_CORE = ["alias", "alias-neg", "const", "const-p", "factor", "ifelse"]
+
+
+def core_option_sets():
+    """A short list used on the bulk of the (model, order) space: the default, the single switches that drop
+    equations, the all-on set and its nearest neighbours that keep an eliminating pass on its own."""
+    allon = tuple(sorted(SWITCHES))
+    d = tuple(sorted(DEFAULT_ON))
+    on = lambda *xs: tuple(sorted(set(d) | set(xs)))  # noqa: E731
+    off = lambda *xs: tuple(sorted(set(allon) - set(xs)))  # noqa: E731
+    return [
+        (d, None),
+        (on("detect_aliases"), None),
+        (on("eliminate_constant_assignments"), None),
+        (on("expand_mx"), EVE[2]),
+        (on("expand_mx"), EVE[1]),
+        (allon, EVE[2]),
+        (allon, None),
+        (off("detect_aliases"), EVE[2]),
+        (off("reduce_affine_expression"), None),
+    ]
+
+
+def plan(tier):
+    """List of (Spec, option-set list name).  Complete within the bounds stated in the checks' rule text."""
     n = 3 if tier == "quick" else 4
     neq = n + 1
     ident = tuple(range(neq))
     rev = tuple(reversed(ident))
     allperms = list(itertools.permutations(range(neq)))
     rots = [tuple((i + r) % neq for i in range(neq)) for r in range(neq)]
-    out = []
     deps = dep_patterns(n)
-    # <= 1 special form: every position x form x dependency pattern x F0 x every permutation (quick: n = 3)
+    out = []
+    # (A) <= 1 special form: every position x form x dependency pattern x state equation
     for nspecial in (0, 1):
         for pos in itertools.combinations(range(n), nspecial):
             for fs in itertools.product(SPECIAL, repeat=nspecial):
@@ -381,21 +405,31 @@ def specs(tier):
                     forms[p_] = f
                 for d in deps:
                     for f0 in ("a-last", "mixed"):
-                        perms = allperms if tier == "thorough" or (d == deps[0] and f0 == "a-last") else [ident, rev]
-                        for pm in perms:
-                            out.append(Spec(forms, d, f0, pm))
-    # 2 special forms: every pair of positions x pair of forms, chain and star dependencies, rotations + reversal
+                        every_order = f0 == "a-last" and (d == deps[0] or (tier == "thorough" and d == deps[1]))
+                        for pm in allperms if every_order else [ident, rev]:
+                            sets = "near" if pm == ident or (tier == "thorough" and pm == rev) else "core"
+                            out.append((Spec(forms, d, f0, pm), sets))
+    # (B) 2 special forms: every pair of positions x pair of forms
     for pos in itertools.combinations(range(n), 2):
         for fs in itertools.product(SPECIAL, repeat=2):
             forms = ["base"] * n
             for p_, f in zip(pos, fs):
                 forms[p_] = f
-            for d in deps[:2]:
-                for pm in (rots + [rev]) if tier == "thorough" else [ident, rev]:
-                    out.append(Spec(forms, d, "a-last", pm))
-    # all special (alias / const chains of full length), chain dependencies, every permutation
-    core = ["alias", "alias-neg", "alias-sum0", "const", "const-p", "factor"]
-    for fs in itertools.product(core, repeat=n):
-        for pm in allperms if tier == "thorough" else [ident, rev, rots[1]]:
-            out.append(Spec(fs, deps[0], "a-last", pm))
+            corepair = all(f in PAIR_CORE for f in fs)
+            for d in deps[:1] if tier == "quick" else deps[:2]:
+                for pm in [ident] if tier == "quick" else rots + [rev]:
+                    if corepair and pm in (ident, rev):
+                        sets = "near" if tier == "quick" else "wide"
+                    else:
+                        sets = "core"
+                    out.append((Spec(forms, d, "a-last", pm), sets))
+    # (C) full-length chains over the core alias / constant / factor forms
+    for fs in itertools.product(CORE_FORMS, repeat=n):
+        for pm in [ident, rev] if tier == "quick" else rots + [rev]:
+            sets = "core" if tier == "quick" or pm != ident else "near"
+            out.append((Spec(fs, deps[0], "a-last", pm), sets))
     return out
+
+
+def option_set_table():
+    return {"core": core_option_sets(), "near": option_sets(1), "wide": option_sets(2)}
